@@ -39,7 +39,7 @@ structure Setup (σ ω : Type) where
 structure NSim (σ ω : Type) where
   cfg : SamplerCfg
   algo : Algo σ ω
-  sim : Sim σ ω
+  sim : SimSt σ ω
   /-- n_species · n_meshes -/
   size : Nat
 
@@ -129,18 +129,18 @@ def onSim (w : World σ ω) (dead : World σ ω × Obs ω) (f : NSim σ ω → W
     | .live m => f m
     | _ => w.crash
 
-def putSim (w : World σ ω) (m : NSim σ ω) (s : Sim σ ω) : World σ ω :=
+def putSim (w : World σ ω) (m : NSim σ ω) (s : SimSt σ ω) : World σ ω :=
   { w with native := setCur w.native (.live { m with sim := s }) }
 
 /-- `engineexport_initialize_*` for a valid script: `global_space_type = …; global_*_algo = new …;
 global_algo_freed = false; …->Init(…)` (a previous live object is leaked, not freed) -/
 def nativeInit (n : Native σ ω) (sc : Setup σ ω) : Native σ ω :=
-  let m : NSim σ ω := { cfg := sc.cfg, algo := sc.algo, sim := Sim.init sc.algo sc.cfg sc.x0, size := sc.stateSize }
+  let m : NSim σ ω := { cfg := sc.cfg, algo := sc.algo, sim := SimSt.init sc.algo sc.cfg sc.x0, size := sc.stateSize }
   let n1 : Native σ ω := { n with spaceType := sc.spaceType }
   { (setCur n1 (.live m)) with freed := false }
 
 /-- a drive call: store `unfinished` in the wrapper, return it as a bool -/
-def drive (w : World σ ω) (o : Obj) (m : NSim σ ω) (r : Sim σ ω × Bool) : World σ ω × Obs ω :=
+def drive (w : World σ ω) (o : Obj) (m : NSim σ ω) (r : SimSt σ ω × Bool) : World σ ω × Obs ω :=
   ((w.putSim m r.1).setObj o { (w.obj o) with unfinished := r.2 }, .bool r.2)
 
 /-- a drive entry point on a released / never set-up library returns 0: "finished" -/
@@ -173,14 +173,14 @@ def call (w : World σ ω) (o : Obj) (c : Call σ ω) : World σ ω × Obs ω :=
       let w1 := w.setObj o { unfinished := true, script := some sc }
       if sc.raises then (w1, .raised)
       else ({ w1 with native := nativeInit w1.native sc }, .unit)
-    | .iterate => w.onSim (w.driveDead o) fun m => w.drive o m (Sim.iterate m.algo m.cfg m.sim)
+    | .iterate => w.onSim (w.driveDead o) fun m => w.drive o m (SimSt.iterate m.algo m.cfg m.sim)
     | .iterateN n =>
       -- `LibRDEngine.iterate_n`: a non-positive count returns the current status without a native call
       if n ≤ 0 then (w, .bool (w.obj o).unfinished)
-      else w.onSim (w.driveDead o) fun m => w.drive o m (Sim.iterateN m.algo m.cfg n.toNat m.sim)
-    | .run k => w.onSim (w.driveDead o) fun m => w.drive o m (Sim.run m.algo m.cfg k m.sim)
+      else w.onSim (w.driveDead o) fun m => w.drive o m (SimSt.iterateN m.algo m.cfg n.toNat m.sim)
+    | .run k => w.onSim (w.driveDead o) fun m => w.drive o m (SimSt.run m.algo m.cfg k m.sim)
     | .sample => w.onSim (w, .unit) fun m => (w.putSim m (m.sim.sample m.algo), .unit)
-    | .getProgress => w.onSim (w, .num 0) fun m => (w, .num (Sim.progress m.cfg m.sim))
+    | .getProgress => w.onSim (w, .num 0) fun m => (w, .num (SimSt.progress m.cfg m.sim))
     | .isComplete => (w, .bool (!(w.obj o).unfinished))
     | .getOutput => w.onSim (w.outputDead o) fun m => w.outputOf o m
     | .finalize =>
